@@ -145,7 +145,8 @@ func runCheck(eng *Engine, o checkOpts, t0 time.Time) int {
 	if workers < 2 {
 		workers = 2
 	}
-	undec0 := loadUndecided(filepath.Join(verifDir, "undecided.json"))
+	verifHome := envOr("VERIF_HOME", "/verif")
+	undec0 := loadUndecided(filepath.Join(verifHome, "undecided.json"))
 	if o.tier != "thorough" {
 		skipObligation = func(name string) bool { _, ok := matchUndecided(undec0, name); return ok }
 	}
@@ -153,8 +154,8 @@ func runCheck(eng *Engine, o checkOpts, t0 time.Time) int {
 	ds := dischargeAll(results, filepath.Join(outDir, "smt"), timeout, workers)
 	solveS := time.Since(tSolve).Seconds()
 
-	known := loadKnown(filepath.Join(verifDir, "known_findings.json"))
-	undec := loadUndecided(filepath.Join(verifDir, "undecided.json"))
+	known := loadKnown(filepath.Join(verifHome, "known_findings.json"))
+	undec := loadUndecided(filepath.Join(verifHome, "undecided.json"))
 
 	type row struct {
 		d *Discharged
